@@ -5,12 +5,15 @@ import DVP.Lemmas.Events
 PARTIAL.  Proved on the selection model (`DV.Events`): a sign change seen by the samples around the
 located root is classified as a crossing whatever the magnitude of the event function (only signs
 enter), and every monitored event whose probe passes the direction mask is reported unless an
-earlier terminal event cuts the step.  What is **not** provable, because it is false of the code:
-that the root finder reports success for every sign change — its success test is absolute
-(`|g(root)| ≤ 4 eps`, C14's known finding P14), so steep event functions are dropped (known finding
-P12).  The completeness of the whole chain is evaluated on the implementation
-(`harness/p_c08.py`: sign of `g` at consecutive recorded samples vs reported events, 12 decades of
-scale, both directions, dense output on/off, 1–6 simultaneous events, crossings on step boundaries).
+earlier terminal event cuts the step.  The first link of the chain — the root finder reports success for
+every sign change — was false of the code (its success test was the absolute `|g(root)| ≤ eps` and its
+width tolerance `eps` lies below the spacing of the floats for `|t| ≥ 2`: findings P14 / P12, half of the
+crossings of a plain oscillator were dropped); since the repair in `/repo` it is C14's theorem
+`lane_sign_change_success` (a lane with a sign change succeeds unless the iteration cap stops it,
+whatever the scale of the function).  The completeness of the whole chain is evaluated on the
+implementation (`harness/p_c08.py`: sign of `g` at consecutive recorded samples vs reported events, 12
+decades of scale, both directions, dense output on/off, 1–6 simultaneous events, crossings on step
+boundaries).
 -/
 namespace DVP.C08
 open DV DV.Events DVP.Events
